@@ -20,7 +20,8 @@ P1_RULE = ("histories generated from one SplitMix64 state: commits of 1..6 ops o
            "reopen (and crash for C02/C03/C07); distinct = by SHA-1 of the op list; non-trivial = the history had data "
            "in at least two different pipeline stages at some observation point")
 
-HOOK_COMMITS = ["39fa7aa verif hook: expose both index page searches (cfg pdb_verif)",
+HOOK_COMMITS = ["bb68460 verif hook: read-only dump of the multitree node forest and ref-count tables (cfg pdb_verif)",
+                "39fa7aa verif hook: expose both index page searches (cfg pdb_verif)",
                 "aa461bc verif hook: route a stepping error through store_err (cfg pdb_verif)",
                 "bafdd9c verif hook: expose last enacted record id and table configuration (cfg pdb_verif)",
                 "8676b67 verif hook: read-only value table state / entry access, compress, hash_key (cfg pdb_verif)",
@@ -77,7 +78,7 @@ PROPS = {
                        "logs are C13."),
         "lean": ["Pdb.Props.C02", "Pdb.Props.C02x", "Pdb.Proofs.Order"],
         "harness": [{"cmd": "p1", "quick": 250, "thorough": 15000},
-                    {"cmd": "c02x", "quick": 450, "thorough": 8000, "model": False}],
+                    {"cmd": "c02x", "quick": 450, "thorough": 8000}],
         "rule": P1_RULE,
         "assumptions": [A_HASH, A_COMPRESS, P2_GAP, "crash instants on the implementation: step boundaries of the stepping API with the unsynced log tail cut at a seeded length"],
     },
@@ -136,16 +137,27 @@ PROPS = {
                        "persistent I/O error at seeded file-operation indexes of every stepping call and of open itself, routing it "
                        "through store_err, then observing reads, refusal, drop, reopen."),
         "level_note": ("Trusted: Lean kernel; P1 abstraction; 'no panic' and 'the failing call returns the error' are checked on the "
-                       "implementation only (catch_unwind at every injected fault); worker threads are not exercised here (the thread-local "
-                       "fault counter cannot reach them): the worker wrapper is represented by the hook verif_store_err."),
+                       "implementation only (catch_unwind at every injected fault). The crate's thread-local fault counter cannot reach the "
+                       "worker threads, so the stepping harness (c16) represents the worker wrapper by the hook verif_store_err; the threaded "
+                       "harness (c16t) runs the real workers in a child process and injects errno failures (EIO / ENOSPC / EISDIR / ENOMEM) by libc "
+                       "interposition at write / read / open / lseek / ftruncate / fsync / fdatasync / msync / mmap / unlink of a seeded thread-"
+                       "independent call index, optionally with a slow disk; in serial mode its commits, the synced prefix (marker keys seen in log "
+                       "writes that precede a successful fdatasync) and the recovered prefix are replayed on the P1 model (p1 fail / failreopen). "
+                       "OS scheduling decides which interleavings occur; a hang is decided by a 45 s watchdog with one re-run."),
         "lean": ["Pdb.Props.C16", "Pdb.Proofs.Order"],
-        "harness": [{"cmd": "c16", "quick": 150, "thorough": 8000}],
+        "harness": [{"cmd": "c16", "quick": 150, "thorough": 8000},
+                    {"cmd": "c16t", "quick": 250, "thorough": 3000, "quick_timeout": 900, "timeout": 3000}],
         "rule": ("fault-free stretches of a generated history, then one stepping call (process / flush / enact / clean / reindex) or Db::open of "
                  "a crash image executed with set_number_of_allowed_io_operations(i) for a seeded index i (0, 1, or up to 60), failure "
                  "persisting for the rest of the call and optionally through drop; distinct by SHA-1 of the op list; non-trivial = the "
-                 "fault was actually hit"),
+                 "fault was actually hit; c16t: child process per case with background threads, 1..4 columns (plain / rc / btree, lz4), 1..3 "
+                 "committers + a reader, serial or free commit order, 17 MiB values (queue-full throttle) in 1/7 of the cases, one of 14 "
+                 "errno-injection plans armed after a seeded number of commits, fault optionally kept through drop; verdicts: failure "
+                 "reported by a refused commit within 4 s, refusal is permanent, only Err(Background), reads match an admissible prefix, "
+                 "drop returns, reopen succeeds to a prefix m with synced <= m <= accepted on every key and by value iteration"),
         "assumptions": [A_HASH, A_COMPRESS, P2_GAP],
-        "trusted": ["hook Db::verif_store_err (cfg pdb_verif)", "the crate's own fault injector (try_io, feature instrumentation)"],
+        "trusted": ["hook Db::verif_store_err (cfg pdb_verif)", "the crate's own fault injector (try_io, feature instrumentation)",
+                    "libc symbol interposition in harness/src/interpose.rs (errno injection, no hook in /repo)"],
     },
     "C13": {
         "level_text": ("Lean theorems C13_parse_encode / C13_total / C13_only_valid_consecutive / C13_file_order / C13_nothing_after_first_invalid / "
@@ -205,11 +217,18 @@ PROPS = {
                        "claimed and overlay filled at commit, table effects in process_commits) every live tree is readable through the "
                        "overlays exactly as in the atomic heap, and the drained tables equal the atomic heap. The model is tied to the real "
                        "Db by differential runs; an independent logical forest with multiset reference counting checks the implementation."),
-        "level_note": ("Trusted: Lean kernel; abstract (never reused) addresses in the model vs. the free-entry stack of the implementation; "
+        "level_note": ("T2 for the node forest: at every quiescent point (enact to quiescence, drain points, reopen) the hook "
+                       "Db::verif_multitree_dump dumps live node slots with their children, roots, ref-count tables and cache; the LEAN checker "
+                       "(driver command t2rc, Pdb/Model/DumpCheckRc.lean) evaluates RcInv on it with a rank witness for acyclicity, proved sound "
+                       "(C14DumpRc_sound: no dangling child, count = number of (parent, position) references with absent = exactly one, every "
+                       "slot reachable, acyclic) and equivalent to the rank-generalised model invariant InvR on the rebuilt heap "
+                       "(C14DumpRc_core_iff_model); C10R_of_Inv / C10R_dereference / C10R_insert_reuse: Inv implies InvR and the operations "
+                       "preserve InvR with new nodes at arbitrary reused addresses. "
+                       "Trusted: Lean kernel; abstract (never reused) addresses in the model vs. the free-entry stack of the implementation; "
                        "value-table slot chains / ref-count table pages / WAL records below the heap model are tied by correspondence only; "
                        "restarts are clean reopens (a run of process steps in the model), crash recovery of multitree columns is not covered "
                        "here; A-hash for root keys."),
-        "lean": ["Pdb.Props.C10"],
+        "lean": ["Pdb.Props.C10", "Pdb.Props.C14DumpRc"],
         "harness": [{"cmd": "c10", "quick": 400, "thorough": 6000, "max_search": 20000}],
         "rule": ("histories from one SplitMix64 state on a one-column Db (variant append_only / ref_counted roots / plain, the latter two "
                  "with direct node access): InsertTree of generated trees (depth 0..5, fan-out 0..255 incl. exactly 255, and 256..300 "
@@ -318,10 +337,13 @@ PROPS = {
         "rule": ("histories from one SplitMix64 state: 1..3 columns (plain / preimage / rc, hash or btree, uniform or salted, lz4), 3..12 keys per "
                  "column, values 0..34000 bytes, commits of 1..5 ops interleaved with process / flush / enact (one log file per call) / clean / "
                  "reindex; up to 12 (thorough 24) power-loss images per history at random instants and right after enact calls (nothing unsynced "
-                 "survives / everything / page-wise and log-prefix by seed); one real journal + up to 3 mutants per history; c12x: index growth "
+                 "survives / everything / page-wise and log-prefix by seed); one real journal + up to 3 mutants per history; one case in four is "
+                 "in growth mode (column 0 uniform with the identity hash, 66..96 keys of ONE index chunk filled in order, so that index growth, "
+                 "reindex records and the drop of the old index file (event X) fall at arbitrary positions of the step interleaving); one case in "
+                 "six ends with a stored background error + drop (error branch of kill_logs) followed by two power-loss images; c12x: index growth "
                  "with a removal from the old index; distinct = SHA-1 of the op list; non-trivial = the journal has table writes and a log truncation"),
         "assumptions": ["A-os: file-system semantics of Pdb/Model/Dur.lean (header)", A_HASH, A_COMPRESS, P2_GAP],
-        "trusted": ["libc symbol interposition in harness/src/interpose.rs (no hook in /repo)"],
+        "trusted": ["libc symbol interposition in harness/src/interpose.rs", "hook Db::verif_store_err (cfg pdb_verif; error-shutdown ending only)"],
     },
     "C05": {
         "level_text": ("Lean theorems C05_read_linearizable / C05_snapshot_order / C05_observed_value / C05_monotone / "
@@ -343,13 +365,15 @@ PROPS = {
                        "critical sections are not modelled; schedules of the real crate are sampled. Stated for plain columns "
                        "(rc / preimage columns weaken as in C07). Trusted: Lean kernel, hook fixes/hook-c05.diff, harness oracles."),
         "lean": ["Pdb.Props.C05", "Pdb.Proofs.Order"],
-        "harness": [{"cmd": "c05", "quick": 8, "thorough": 24, "model": False, "timeout": 3000}],
-        "rule": ("cases from one SplitMix64 state, kind = seed % 4: 0|1 threaded stress (4..8 keys bumped together per transaction, "
+        "harness": [{"cmd": "c05", "quick": 12, "thorough": 36, "model": False, "timeout": 3000}],
+        "rule": ("cases from one SplitMix64 state, kind = seed % 6 (a run covers the kinds in turn): 0|1 threaded stress (4..8 keys bumped together per transaction, "
                  "value sizes from 16 B to 40 kB incl. multipart so entries change tier, filler thread growing one index chunk: 2..5 "
                  "index growths per case, 4..6 readers, seeded delays at the yield points), 2 deterministic F11 (reader parked between "
                  "the index lookups across the final reindex batch + drop), 3 hand-over windows (worker parked after end_record / "
-                 "before end_read, reads + commits + further steps in between); non-trivial = >1000 reads and >10 versions (stress), "
-                 "reader parked (F11), always (hand-over)"),
+                 "before end_read, reads + commits + further steps in between), 4|5 deep queue with diverged ids (commit ids and log "
+                 "record ids made to differ by 1..3 through reindex records or a replay at open, then 3..12 queued transactions on the "
+                 "same keys stepped one pipeline call at a time with get + get_size of every key after every call); non-trivial = >1000 "
+                 "reads and >10 versions (stress), reader parked (F11), always (hand-over, deep queue)"),
         "assumptions": ["identity hashing (zero salt, uniform keys, instrumentation) so that one index chunk can be filled on purpose",
                         "lock-granular atomicity of the critical sections (parking_lot lock semantics)"],
         "trusted": ["hook lib.rs verif::{set_yield_hook, yield_point} + 4 call sites (cfg pdb_verif)"],
@@ -489,8 +513,9 @@ PROPS = {
         "trusted": ["hook Db::verif_dump / verif_reindex_state (cfg pdb_verif)"],
     },
     "C14": {
-        "lean": ["Pdb.Props.C14", "Pdb.Props.C14Dump"],
-        "harness": [{"cmd": "c09", "quick": 48, "thorough": 600, "timeout": 3000}],
+        "lean": ["Pdb.Props.C14", "Pdb.Props.C14Dump", "Pdb.Props.C14DumpRc"],
+        "harness": [{"cmd": "c09", "quick": 48, "thorough": 600, "timeout": 3000},
+                    {"cmd": "c10", "quick": 100, "thorough": 1500}],
         "level_text": ("Lean theorems: IndexInv / SlotInvAbs / NoLeak preserved over all histories (C14_index_inv_preserved, C14_no_leak), "
                        "C14_no_misattribution, C14_remove_returns_slot, C14_fill_mark_moves_only_when_no_free_slot, C14_iter_values_exact on the abstract "
                        "value tables of the index-layer model; the byte-level slot invariant (free list acyclic / in range, chains disjoint, live + free = "
@@ -500,10 +525,12 @@ PROPS = {
         "level_note": ("Trusted: Lean kernel; hooks Db::verif_dump / verif_table_entry (raw slot bytes, index entries, free-list head, header). The "
                        "invariants are evaluated on every dump by the LEAN checker (driver command t2: checkSlots / checkIndex / checkTree), proved sound "
                        "against the Prop invariants of the theorems (C14Dump_slots_sound, C14Dump_index_sound, C14Dump_tree_sound, ...); the harness's Rust "
-                       "restatement runs in addition as an independent oracle. Not covered by the dump checker: RcInv of multitree ref-count tables "
-                       "(no dump hook for child lists; covered by the c10 correspondence instead); dumps above 200 KB text are skipped and counted."),
+                       "restatement runs in addition as an independent oracle. RcInv of multitree columns (node reference counts = number of referencing "
+                       "parents, no dangling child, no leaked node, acyclic) is evaluated by the Lean checker t2rc on dumps of the hook "
+                       "Db::verif_multitree_dump taken by c10 (every quiescent point) and c02x (every crash recovery, the slots predicted to leak by "
+                       "finding F19 as allowed orphans): C14DumpRc_sound, C14DumpRc_core_iff_model. Dumps above 200 KB text are skipped and counted."),
         "rule": "as C09 plus multipart values and 400-cycle steady workloads; structure checked on hook dumps after every drain / reopen / recovery",
         "assumptions": ["as C09; byte-level SlotInv is C06, TreeInv C04, RcInv C10"],
-        "trusted": ["hook Db::verif_dump (cfg pdb_verif)"],
+        "trusted": ["hook Db::verif_dump (cfg pdb_verif)", "hook Db::verif_multitree_dump (cfg pdb_verif)"],
     },
 }
